@@ -65,8 +65,19 @@ ASSUMPTIONS = [
 SHARDS = {'quick': 1, 'thorough': 16}
 
 KINDS = ['none', 'scalar', 'size1', 'src', 'rec', 'freq', 'srcrec',
-         'recfreq', 'full']
+         'recfreq', 'full', 'srcfreq']
 FREQS = [0.1, 0.5, 1.0, 2.0, 10.0]
+# only used for more than five frequencies (zero-padded automatic keys)
+FREQS_MANY = FREQS + [0.05, 0.2, 0.25, 3.0, 4.0, 5.0, 8.0, 20.0]
+# layouts / types in which a noise parameter is handed over (all are a float
+# or a three-dimensional float ndarray, as documented)
+FORMS = ['plain', 'np64', 'bcast', 'fortran', 'strided']
+# constant coordinate shifts (UTM-like); all coordinates stay exact multiples
+# of 0.25 below 2**23, so centres and offsets are exact in float64 but not
+# representable in float32
+SHIFTS = [None, (500000.0, 6000000.0, -1000.0), (-350000.5, 4100000.25, 0.0)]
+# user-chosen keys whose insertion order differs from their sorted order
+TAGS = ['z', '10', '9', 'B', 'a', 'Zz', '2', '-1', 'y', '_x', '0']
 INTERNAL = ('_noise_floor', '_relative_error', 'standard_deviation')
 PNAMES = {'nf': 'noise_floor', 're': 'relative_error'}
 
@@ -84,8 +95,10 @@ def _same(a, b):
     return np.array_equal(a[~na], b[~nb])
 
 
-def make_data(seed, salt, shape, scale, nanfrac, slabs=True):
-    """Complex data, |d| log-uniform over 4 decades, NaN gaps, empty slabs."""
+def make_data(seed, salt, shape, scale, nanfrac, slabs=True, zeros=False):
+    """Complex data, |d| log-uniform over 4 decades, NaN gaps, empty slabs;
+    `zeros`: about 15 % of the entries are exactly 0 (drawn last: the other
+    entries do not depend on the flag)."""
     rng = gen.rng_of(seed, salt)
     amp = 10.0**rng.uniform(-2, 2, size=shape)*scale
     d = amp*np.exp(1j*rng.uniform(0, 2*np.pi, size=shape))
@@ -97,11 +110,21 @@ def make_data(seed, salt, shape, scale, nanfrac, slabs=True):
                     ind = [slice(None)]*3
                     ind[ax] = int(rng.integers(shape[ax]))
                     d[tuple(ind)] = np.nan + 1j*np.nan
+    if zeros:
+        z = rng.random(shape) < 0.15
+        d[z & ~np.isnan(d)] = 0.0
     return d
 
 
-def make_param(what, kind, seed, shape, scale, one=True):
+def make_param(what, kind, seed, shape, scale, one=True, form='plain'):
     """Value handed to emg3d for a noise parameter (None, float, ndarray).
+    Every call returns a fresh object (never copy() it: that would undo the
+    memory layout of `form`).
+
+    form: 'plain' Python float / C-contiguous array; 'np64' numpy.float64
+    scalar (arrays: plain); 'bcast' read-only zero-stride numpy.broadcast_to
+    view of an array that is constant along its last non-unit axis; 'fortran'
+    Fortran-ordered array; 'strided' non-contiguous view of a larger array.
 
     An array kind that has a single element for this survey shape (e.g.
     'full' for 1x1x1, 'src' for one source, 'size1') is handed over as a
@@ -112,7 +135,8 @@ def make_param(what, kind, seed, shape, scale, one=True):
     ns, nr, nf = shape
     shp = {'scalar': (), 'size1': (1, 1, 1), 'src': (ns, 1, 1),
            'rec': (1, nr, 1), 'freq': (1, 1, nf), 'srcrec': (ns, nr, 1),
-           'recfreq': (1, nr, nf), 'full': (ns, nr, nf)}[kind]
+           'recfreq': (1, nr, nf), 'full': (ns, nr, nf),
+           'srcfreq': (ns, 1, nf)}[kind]
     rng = gen.rng_of(seed, {'nf': 21, 're': 22, 'std': 23}[what])
     if what == 'nf':
         v = 10.0**rng.uniform(-2.5, 1.5, size=shp)*scale
@@ -121,8 +145,19 @@ def make_param(what, kind, seed, shape, scale, one=True):
     else:
         v = 10.0**rng.uniform(-2, 1, size=shp)*scale
     if kind == 'scalar' or (v.size == 1 and not one):
-        return float(v.reshape(-1)[0])
-    return np.asarray(v, dtype=float)
+        x = float(v.reshape(-1)[0])
+        return np.float64(x) if form == 'np64' else x
+    v = np.asarray(v, dtype=float)
+    if form == 'bcast' and v.size > 1:
+        ax = max(i for i in range(3) if v.shape[i] > 1)
+        v = np.broadcast_to(v.take([0], axis=ax).copy(), shp)
+    elif form == 'fortran':
+        v = np.asfortranarray(v)
+    elif form == 'strided':
+        big = np.full(tuple(2*n for n in shp), 7.0*scale)
+        big[::2, ::2, ::2] = v
+        v = big[::2, ::2, ::2]
+    return v
 
 
 def full_of(value, shape):
@@ -187,31 +222,78 @@ def size1_guard(values):
         raise
 
 
-def build_geometry(seed, shape):
+def build_geometry(seed, shape, geo=None):
     """Sources, receivers, frequencies on an integer lattice.
-    Returns (src objs, rec objs, freqs, src centres, rec (centre, relative))."""
+    Returns (src objs, rec objs, freqs, src centres, rec (centre, relative),
+    expected electrode descriptions {'src': [...], 'rec': [...]}).
+
+    geo=None: point / dipole sources around the origin (the draws of this
+    part never change).  geo={'src': 'mixed', 'shift': k}: about half of the
+    sources become TxElectricWire (open path or closed loop with two or four
+    unique lattice vertices, so that the centre - mean of the *unique*
+    vertices - is exact) or TxMagneticPoint, some get a strength; SHIFTS[k]
+    is added to all absolute coordinates."""
     import emg3d
     rng = gen.rng_of(seed, 1)
+    rng2 = gen.rng_of(seed, 41)
+    geo = geo or {}
+    mixed = geo.get('src', 'classic') == 'mixed'
+    shift = SHIFTS[geo.get('shift', 0) or 0]
+    sh = np.zeros(3) if shift is None else np.array(shift, dtype=float)
     ns, nr, nfq = shape
-    srcs, spos = [], []
+    srcs, spos, sexp = [], [], []
     for _ in range(ns):
         p = rng.integers(-3, 4, 3)
+        kw = {}
         if rng.random() < 0.4:
             d = rng.integers(-2, 3, 3)
             if not d.any():
                 d[int(rng.integers(3))] = 1
             q = p + d
-            srcs.append(emg3d.TxElectricDipole(
-                (float(p[0]), float(q[0]), float(p[1]), float(q[1]),
-                 float(p[2]), float(q[2]))))
-            spos.append((p + q)/2.0)
+            cls = emg3d.TxElectricDipole
+            coo = (float(p[0]) + sh[0], float(q[0]) + sh[0],
+                   float(p[1]) + sh[1], float(q[1]) + sh[1],
+                   float(p[2]) + sh[2], float(q[2]) + sh[2])
+            cen = (p + q)/2.0 + sh
         else:
             azm, elev = float(rng.integers(-9, 10)*10), float(
                 rng.integers(-4, 5)*10)
-            srcs.append(emg3d.TxElectricPoint(
-                (float(p[0]), float(p[1]), float(p[2]), azm, elev)))
-            spos.append(p.astype(float))
-    recs, rinfo = [], []
+            cls = emg3d.TxElectricPoint
+            coo = (float(p[0]) + sh[0], float(p[1]) + sh[1],
+                   float(p[2]) + sh[2], azm, elev)
+            cen = p.astype(float) + sh
+        if mixed:
+            u = rng2.random()
+            if u < 0.35:
+                # wire along a lattice rectangle p, p+a, p+a+b, p+b
+                i, j = [int(k) for k in rng2.permutation(3)[:2]]
+                a, b = np.zeros(3), np.zeros(3)
+                a[i] = float(rng2.integers(1, 3))
+                b[j] = float(rng2.integers(1, 3))
+                p0 = p.astype(float) + sh
+                how = int(rng2.integers(3))
+                if how == 0:        # two vertices
+                    pts = [p0, p0 + a + b]
+                elif how == 1:      # open path, four unique vertices
+                    pts = [p0, p0 + a, p0 + a + b, p0 + b]
+                else:               # closed loop: first vertex repeated
+                    pts = [p0, p0 + a, p0 + a + b, p0 + b, p0]
+                cls = emg3d.TxElectricWire
+                coo = np.array(pts)
+                cen = p0 + (a + b)/2.0
+            elif u < 0.5:
+                cls = emg3d.TxMagneticPoint
+                coo = (float(p[0]) + sh[0], float(p[1]) + sh[1],
+                       float(p[2]) + sh[2], float(rng2.integers(-9, 10)*10),
+                       float(rng2.integers(-4, 5)*10))
+                cen = p.astype(float) + sh
+            if rng2.random() < 0.3:
+                kw['strength'] = 2.5
+        srcs.append(cls(coo, **kw))
+        spos.append(cen)
+        sexp.append({'cls': cls.__name__, 'coordinates': np.array(coo, float),
+                     'strength': kw.get('strength', 1.0)})
+    recs, rinfo, rexp = [], [], []
     for _ in range(nr):
         p = rng.integers(-3, 4, 3)
         if rng.random() < 0.4:          # axis-aligned: exact offsets
@@ -224,11 +306,37 @@ def build_geometry(seed, shape):
         rel = bool(rng.random() < 0.35)
         cls = emg3d.RxMagneticPoint if rng.random() < 0.3 else \
             emg3d.RxElectricPoint
-        recs.append(cls((float(p[0]), float(p[1]), float(p[2]), azm, elev),
-                        relative=rel))
-        rinfo.append((p.astype(float), rel))
-    freqs = [float(f) for f in rng.choice(FREQS, size=nfq, replace=False)]
-    return srcs, recs, freqs, spos, rinfo
+        c3 = p.astype(float) if rel else p.astype(float) + sh
+        coo = (float(c3[0]), float(c3[1]), float(c3[2]), azm, elev)
+        recs.append(cls(coo, relative=rel))
+        rinfo.append((c3, rel))
+        rexp.append({'cls': cls.__name__, 'coordinates': np.array(coo, float),
+                     'relative': rel})
+    pool = FREQS if nfq <= len(FREQS) else FREQS_MANY
+    freqs = [float(f) for f in rng.choice(pool, size=nfq, replace=False)]
+    return srcs, recs, freqs, spos, rinfo, {'src': sexp, 'rec': rexp}
+
+
+def check_electrode(obj, exp, centre, axis, name, role, after):
+    """The object stored under a name is the one that was put there: class,
+    coordinates (bit-identical), strength / relative flag, centre."""
+    def bad(what, got, want):
+        raise Violation(
+            f"content:electrode:{axis}:{what}:{role}:after={after}",
+            f"{axis[:-1]} {name!r}: {what} is {got!r}, the survey was created "
+            f"with {want!r}")
+    if type(obj).__name__ != exp['cls']:
+        bad('class', type(obj).__name__, exp['cls'])
+    got = np.asarray(obj.coordinates, dtype=float)
+    if got.shape != exp['coordinates'].shape or not np.array_equal(
+            got, exp['coordinates']):
+        bad('coordinates', got.tolist(), exp['coordinates'].tolist())
+    if 'strength' in exp and not obj.strength == exp['strength']:
+        bad('strength', obj.strength, exp['strength'])
+    if 'relative' in exp and bool(obj.relative) != exp['relative']:
+        bad('relative', obj.relative, exp['relative'])
+    if not np.array_equal(np.asarray(obj.center, dtype=float), centre):
+        bad('center', np.asarray(obj.center).tolist(), centre.tolist())
 
 
 class Model:
@@ -237,6 +345,7 @@ class Model:
     def __init__(self):
         self.src, self.rec, self.freq = [], [], []
         self.fval, self.spos, self.rinfo = {}, {}, {}
+        self.sexp, self.rexp = {}, {}     # name -> electrode as created
         self.data = {}
         self.nf = self.re = self.std = None
         self.scale = 1.0
@@ -272,6 +381,8 @@ class Model:
         m.fval = {k: self.fval[k] for k in m.freq}
         m.spos = {k: self.spos[k] for k in m.src}
         m.rinfo = {k: self.rinfo[k] for k in m.rec}
+        m.sexp = {k: self.sexp[k] for k in m.src}
+        m.rexp = {k: self.rexp[k] for k in m.rec}
         ix = np.ix_(si, ri, fi)
         m.data = {k: v[ix].copy() for k, v in self.data.items()}
         for p in ('nf', 're', 'std'):
@@ -303,6 +414,13 @@ def check_survey(sv, m, after, role='current', data=True):
     if tuple(sv.shape) != shape:
         raise Violation(f"content:shape:{role}:after={after}",
                         f"shape {sv.shape}, expected {shape}")
+    # --- the objects behind the names
+    for k in m.src:
+        check_electrode(sv.sources[k], m.sexp[k], m.spos[k], 'sources', k,
+                        role, after)
+    for k in m.rec:
+        check_electrode(sv.receivers[k], m.rexp[k], m.rinfo[k][0],
+                        'receivers', k, role, after)
 
     # --- stored parameters, bit-identical to the model
     for p, pname in PNAMES.items():
@@ -387,6 +505,16 @@ def check_survey(sv, m, after, role='current', data=True):
                         {'got': g, 'expected': exp})
 
 
+def _form_label(val, form):
+    """Evidence label: the form that was really handed over."""
+    if val is None:
+        return 'none'
+    if not isinstance(val, np.ndarray):
+        return 'np64' if isinstance(val, np.floating) else 'float'
+    return form if form in ('fortran', 'strided') or (
+        form == 'bcast' and val.size > 1) else 'plain_array'
+
+
 def _pk(m, p):
     """Kind label of a model parameter (none / scalar / array): 'array' iff
     the assigned value had more than one element."""
@@ -439,21 +567,25 @@ class Driver:
         import emg3d
         cfg = self.cfg
         shape = tuple(cfg['shape'])
-        srcs, recs, freqs, spos, rinfo = build_geometry(cfg['seed'], shape)
+        srcs, recs, freqs, spos, rinfo, eexp = build_geometry(
+            cfg['seed'], shape, cfg.get('geo'))
         scale = cfg['scale']
         kw = {}
         m = Model()
         m.scale = scale
+        forms = []
         for p, pname in PNAMES.items():
             c = cfg[p + '0']
-            val = make_param(p, c['kind'], c['seed'], shape, scale,
-                             c['one'])
+            args = (p, c['kind'], c['seed'], shape, scale, c['one'],
+                    c.get('form', 'plain'))
+            val = make_param(*args)
             if c['kind'] != 'none' or c['seed'] % 2:
-                kw[pname] = None if val is None else (
-                    val.copy() if isinstance(val, np.ndarray) else val)
+                kw[pname] = make_param(*args)      # fresh object, same layout
             setattr(m, p, full_of(val, shape))
             m._arr[p] = kind_of(val) == 'array'
-        obs = make_data(cfg['seed'], 2, shape, scale, cfg['nan'])
+            forms.append(f"init:form={_form_label(val, c.get('form', 'plain'))}")
+        obs = make_data(cfg['seed'], 2, shape, scale, cfg['nan'],
+                        zeros=cfg.get('zeros', False))
         ext = make_data(cfg['seed'], 3, shape, scale, cfg['nan']/2)
         d0 = cfg['data0']
         if d0 == 'none':
@@ -470,24 +602,59 @@ class Driver:
             data = {'extra': ext.copy()}
             m.data['observed'] = np.full(shape, np.nan+1j*np.nan)
             m.data['extra'] = ext
+        std0 = cfg.get('std0', 'none')
+        if std0 == 'ctor':
+            # documented for `data`: a dict "in which one could also store,
+            # for instance, standard-deviations"
+            m.std = make_param('std', 'full', cfg['seed'], shape, scale)
+            if data is None:
+                data = {}
+            elif not isinstance(data, dict):
+                data = {'observed': data}
+            data['standard_deviation'] = m.std.copy()
+        names = cfg.get('names', 'auto')
+        if names == 'dict':
+            # user keys; insertion order differs from the sorted order
+            a_src = {'S' + TAGS[i]: v for i, v in enumerate(srcs)}
+            a_rec = {'R' + TAGS[i]: v for i, v in enumerate(recs)}
+            a_frq = {'F' + TAGS[i]: v for i, v in enumerate(freqs)}
+            exp_names = (list(a_src), list(a_rec), list(a_frq))
+        else:
+            a_src, a_rec, a_frq = srcs, recs, freqs
+            exp_names = None
         with warnings.catch_warnings():
             warnings.simplefilter('ignore')
             with size1_guard(kw.values()):
-                sv = emg3d.Survey(srcs, recs, freqs, data=data, **kw)
+                sv = emg3d.Survey(a_src, a_rec, a_frq, data=data, **kw)
         m.src, m.rec, m.freq = (list(sv.sources), list(sv.receivers),
                                 list(sv.frequencies))
+        if exp_names is not None and exp_names != (m.src, m.rec, m.freq):
+            raise Violation("content:names:user_keys_not_kept:init",
+                            f"keys {exp_names} became "
+                            f"{(m.src, m.rec, m.freq)}")
         m.fval = dict(zip(m.freq, freqs))
         m.spos = dict(zip(m.src, spos))
         m.rinfo = dict(zip(m.rec, rinfo))
+        m.sexp = dict(zip(m.src, eexp['src']))
+        m.rexp = dict(zip(m.rec, eexp['rec']))
         self.sv, self.m = sv, m
-        if cfg.get('std0', 'none') != 'none':
-            m.std = make_param('std', cfg['std0'], cfg['seed'], shape, scale)
+        if std0 not in ('none', 'ctor'):
+            m.std = make_param('std', std0, cfg['seed'], shape, scale)
             sv.standard_deviation = m.std.copy()
         shp = '1x1x1' if shape == (1, 1, 1) else (
             'has1' if 1 in shape else 'general')
+        geo = cfg.get('geo') or {}
         self.rec.cls(f"init:std={cfg.get('std0', 'none')}", f"shape={shp}",
                      f"init:nf={_pk(m, 'nf')}", f"init:re={_pk(m, 're')}",
-                     f"init:data={d0}", f"scale={scale:g}")
+                     f"init:data={d0}", f"scale={scale:g}",
+                     f"init:names={names}",
+                     f"init:shift={bool(geo.get('shift', 0))}",
+                     f"init:zeros={bool(cfg.get('zeros', False))}",
+                     f"init:auto_keys_padded={names == 'auto' and max(shape) >= 10}",
+                     *sorted(set(forms)),
+                     *sorted({'init:src=' + e['cls'] for e in eexp['src']}),
+                     *(['init:src_strength=2.5'] if any(
+                         e['strength'] != 1.0 for e in eexp['src']) else []))
         self.verify('init')
 
     # -- dispatch
@@ -508,16 +675,19 @@ class Driver:
     # -- explicit assignments
     def _set_param(self, p, a):
         m = self.m
-        val = make_param(p, a['kind'], a['seed'], m.shape, m.scale,
-                         a['one'])
-        give = val.copy() if isinstance(val, np.ndarray) else val
+        args = (p, a['kind'], a['seed'], m.shape, m.scale, a['one'],
+                a.get('form', 'plain'))
+        val = make_param(*args)
+        give = make_param(*args)               # fresh object, same layout
         if a.get('as_list') and isinstance(give, np.ndarray):
             give = give.tolist()
         with size1_guard([give]):
             setattr(self.sv, PNAMES[p], give)
         setattr(m, p, full_of(val, m.shape))
         m._arr[p] = kind_of(val) == 'array'
-        self.rec.cls(f"set_{p}:{a['kind']}")
+        self.rec.cls(f"set_{p}:{a['kind']}", "set:form=" + (
+            'list' if isinstance(give, list) else
+            _form_label(val, a.get('form', 'plain'))))
         self.verify(f"set_{PNAMES[p]}")
 
     def op_set_nf(self, a):
@@ -536,7 +706,8 @@ class Driver:
 
     def op_set_obs(self, a):
         m = self.m
-        arr = make_data(a['seed'], 4, m.shape, m.scale, a['nan'])
+        arr = make_data(a['seed'], 4, m.shape, m.scale, a['nan'],
+                        zeros=a.get('zeros', False))
         if a['how'] == 'inplace':
             self.sv.data['observed'][...] = arr.copy()
         else:
@@ -551,6 +722,15 @@ class Driver:
         shape = m.shape
         obs = m.data['observed']
         kw = {}
+        num = a.get('num', 'float')
+
+        def conv(x):
+            """The drawn numeric type of a scalar argument (same value)."""
+            if num == 'np64':
+                return np.float64(x)
+            if num == 'int' and np.isfinite(x) and float(x).is_integer():
+                return int(x)
+            return float(x)
         ma = a['min_amp']
         if ma[0] in ('default', 'half_nf'):
             thr = None if m.nf is None else m.nf/2.0
@@ -576,7 +756,7 @@ class Driver:
                 else:
                     val = float(fin[-1]*2)
             thr = val
-            kw['min_amplitude'] = val
+            kw['min_amplitude'] = conv(val)
             malab = 'float'
         off = np.sqrt(m.offsets2())   # exact d2 -> same float as emg3d's
         uoff = np.unique(off)
@@ -586,6 +766,8 @@ class Driver:
             | ['mid', i] (between two occurring offsets)."""
             if spec is None:
                 return None, 'omitted'
+            if spec[0] == 'inf':        # the documented default, explicitly
+                return float('inf'), 'inf'
             if spec[0] == 'abs':
                 return float(spec[1]), 'abs'
             # equality only with offsets that are exact in any arithmetic
@@ -600,15 +782,15 @@ class Driver:
         mino, minlab = offset_value(a['min_offset'])
         maxo, maxlab = offset_value(a['max_offset'])
         if mino is not None:
-            kw['min_offset'] = mino
+            kw['min_offset'] = conv(mino)
         if maxo is not None:
-            kw['max_offset'] = maxo
+            kw['max_offset'] = conv(maxo)
         if a['add_to'] is not None:
             kw['add_to'] = a['add_to']
         if a['ntype'] is not None:
             kw['ntype'] = a['ntype']
         if a['mean'] is not None:
-            kw['mean_noise'] = float(a['mean'])
+            kw['mean_noise'] = conv(a['mean'])
         tgt = a['add_to'] or 'observed'
         ntype = a['ntype'] or 'white_noise'
         mean = float(a['mean'] or 0.0)
@@ -634,6 +816,13 @@ class Driver:
         std = model_std(m.nf, m.re, m.std, obs_std)
         std_nan = np.zeros(shape, bool) if std is None else np.isnan(std)
         exp_nan = np.isnan(old) | cut | std_nan
+
+        # ---- clones of the state before the call, for the seeded probes
+        clones = []
+        if a.get('probe', False) and std is not None:
+            import emg3d
+            clones = [emg3d.Survey.from_dict(sv.to_dict(copy=True))
+                      for _ in range(3)]
 
         # ---- the call
         with seeded_default_rng(a['seed']):
@@ -720,6 +909,9 @@ class Driver:
                                           "added noise differ" + mdesc)
             if not np.all(np.isfinite(delta)):
                 raise Violation(msig, "non-finite noise")
+            if clones:
+                self._probe_noise(clones, a, kw, tgt, ntype, mean, conv, old,
+                                  new, ok, std, std_nan, mdesc)
         self.rec.cls(
             f"add_noise:min_amp={ma[0] if ma[0] != 'abs' else 'float_'+ma[2]}",
             f"add_noise:nf={_pk(m, 'nf')}", f"add_noise:re={_pk(m, 're')}",
@@ -730,11 +922,78 @@ class Driver:
             f"add_noise:cut_amp={_frac(cut_amp & ~np.isnan(obs))}",
             f"add_noise:cut_off={_frac(cut_off)}",
             f"add_noise:min_offset={minlab}", f"add_noise:max_offset={maxlab}",
+            "add_noise:scalar_types=" + '+'.join(sorted(
+                {type(v).__name__ for k, v in kw.items() if k in (
+                    'min_offset', 'max_offset', 'mean_noise', 'min_amplitude')
+                 and not isinstance(v, str) and v is not None}) or ['none']),
             "add_noise:noisy_entries=" + (
                 'none[no_std]' if std is None else 'none[all_nan_before]'
                 if np.isnan(old).all() else 'none[all_cut_or_std_nan]'
                 if not ok.any() else 'some'))
         self.verify(after)
+
+    def _probe_noise(self, clones, a, kw, tgt, ntype, mean, conv, old, new,
+                     ok, std, std_nan, mdesc):
+        """Scale and mean of the added noise for all noise types, from what
+        random_noise documents: d_noise = std*((1+i)*mean + R), R depending
+        only on the generator.  Clones of the survey get the same generator
+        state (seeded_default_rng); (A) same arguments must reproduce the
+        result, else nothing is concluded; (B) mean_noise + 1 shifts the
+        result by std*(1+i); (C) the doubled standard deviation (assigned
+        explicitly) doubles the noise."""
+        A, B, C = clones
+        with seeded_default_rng(a['seed']):
+            A.add_noise(**kw)
+        if not _same(np.array(A.data[tgt].data), new):
+            self.rec.cls("add_noise:probe=not_reproducible")
+            return
+        s = std[ok]
+        base = np.abs(old[ok]) + np.abs(new[ok]) + s*(2 + 2*abs(mean))
+        # (B) mean
+        kwb = dict(kw)
+        kwb['mean_noise'] = conv(mean + 1.0)
+        with seeded_default_rng(a['seed']):
+            B.add_noise(**kwb)
+        b = np.array(B.data[tgt].data)
+        if not np.array_equal(np.isnan(b), np.isnan(new)):
+            raise Violation(f"add_noise:mean_noise:{ntype}:nan_pattern",
+                            "NaN pattern depends on mean_noise" + mdesc)
+        dev = np.abs((b[ok] - new[ok]) - s*(1+1j))
+        tol = 1e-11*(base + np.abs(b[ok]))
+        if np.any(dev > tol):
+            i = int(np.argmax(dev - tol))
+            raise Violation(
+                f"add_noise:mean_noise:{ntype}",
+                "same generator state, mean_noise + 1: the data change by "
+                f"{(b[ok] - new[ok])[i]:.6e} instead of std*(1+i) with std "
+                f"{s[i]:.6e}" + mdesc, {'std': std, 'mean': new, 'mean+1': b})
+        # (C) scale; only if the standard deviation handed to the noise
+        # generator has the same (empty) NaN pattern in both calls
+        S = C.standard_deviation
+        S = None if S is None else np.array(S.data)
+        if (S is None or std_nan.any() or not np.all(np.isfinite(S)) or
+                not np.all(S > 0)):
+            self.rec.cls("add_noise:probe=mean", f"probe:{ntype}=mean")
+            return
+        C.standard_deviation = 2.0*S
+        with seeded_default_rng(a['seed']):
+            C.add_noise(**kw)
+        c = np.array(C.data[tgt].data)
+        if not np.array_equal(np.isnan(c), np.isnan(new)):
+            raise Violation(f"add_noise:noise_scale:{ntype}:nan_pattern",
+                            "NaN pattern changes if the standard deviation "
+                            "is doubled" + mdesc)
+        dev = np.abs((c[ok] - old[ok]) - 2.0*(new[ok] - old[ok]))
+        tol = 1e-11*(2*base + np.abs(c[ok]))
+        if np.any(dev > tol):
+            i = int(np.argmax(dev - tol))
+            raise Violation(
+                f"add_noise:noise_scale:{ntype}",
+                "same generator state, standard deviation doubled: noise "
+                f"{(c[ok] - old[ok])[i]:.6e} instead of twice "
+                f"{(new[ok] - old[ok])[i]:.6e}" + mdesc,
+                {'std': std, 'old': old, 'new': new, 'doubled': c})
+        self.rec.cls("add_noise:probe=mean+scale", f"probe:{ntype}=mean+scale")
 
     # -- select
     def op_select(self, a):
@@ -809,7 +1068,16 @@ class Driver:
         self.verify(origin)
 
     def op_copy(self, a):
-        self._fork(self.sv.copy(), 'copy', a['keep'], True)
+        how = a.get('how', 'copy')
+        if how == 'deepcopy':       # what users and multiprocessing do
+            new = copy.deepcopy(self.sv)
+        elif how == 'pickle':
+            import pickle
+            new = pickle.loads(pickle.dumps(self.sv))
+        else:
+            new = self.sv.copy()
+        self.rec.cls(f"copy:how={how}")
+        self._fork(new, 'copy' if how == 'copy' else how, a['keep'], True)
 
     def op_dict(self, a):
         import emg3d
@@ -854,9 +1122,15 @@ class Driver:
                 return
             raise Violation("misfit:no_std_no_error",
                             f"misfit={val!r} without any standard deviation")
+        if np.any(std == 0):
+            # |d_obs| = 0 with a relative error only: the weight is not
+            # defined; nothing is demanded
+            self.rec.cls("misfit:std_zero_skipped")
+            return
         got = float(sim.misfit)
         ref, nfin = ref_misfit(syn, m.data['observed'], std)
         self.rec.cls(f"misfit:finite={'0' if nfin == 0 else ('1' if nfin == 1 else 'many')}")
+        check_weights(sim, syn, m.data['observed'], std)
         if abs(got - ref) > 1e-12*abs(ref):
             raise Violation(
                 f"misfit:formula:std={'explicit' if m.std is not None else 'computed'}",
@@ -880,6 +1154,32 @@ def check_params_and_others(sv, m, datasets, after, role='current'):
                 f"content:data:{dr}:{role}:after={after.split('(')[0]}",
                 f"data set {k!r} was changed by an operation that should "
                 "not touch it")
+
+
+def check_weights(sim, syn, obs, std, tag=''):
+    """After `misfit`: data.residual = d_syn - d_obs (one subtraction, hence
+    bit-identical) and data.weights follow the standard deviation.  The
+    misfit docstring defines W = 1/std, the code (and the jtvec docstring,
+    gradient = J^T(residual*weights)) uses 1/std^2: either is accepted, so
+    that only stale or otherwise wrong weights are flagged."""
+    if 'residual' not in sim.data or 'weights' not in sim.data:
+        return      # where they are kept is not part of the property
+    r = np.array(sim.data['residual'].data)
+    if not _same(r, syn - obs):
+        raise Violation(f"misfit:residual{tag}",
+                        "data.residual is not d_syn - d_obs",
+                        {'residual': r, 'syn': syn, 'obs': obs})
+    w = np.array(sim.data['weights'].data)
+    good = False
+    if w.shape == std.shape and np.array_equal(np.isnan(w), np.isnan(std)):
+        fin = ~np.isnan(std)
+        good = (np.allclose(w[fin], std[fin]**-2.0, rtol=1e-13, atol=0) or
+                np.allclose(w[fin], 1.0/std[fin], rtol=1e-13, atol=0))
+    if not good:
+        raise Violation(f"misfit:weights{tag}",
+                        "data.weights are neither 1/std^2 nor 1/std of the "
+                        "current standard deviation",
+                        {'weights': w, 'std': std})
 
 
 def ref_misfit(syn, obs, std):
@@ -911,16 +1211,18 @@ def sim_model():
 # ------------------------------------------------------------- strategies
 SMALL = st.integers(0, 9999)
 ONE = st.sampled_from([False]*5 + [True])
+FORM = st.sampled_from(['plain']*4 + FORMS[1:])
 PARAM = st.fixed_dictionaries({'kind': st.sampled_from(KINDS), 'seed': SMALL,
-                               'one': ONE})
+                               'one': ONE, 'form': FORM})
 PARAM_SET = st.fixed_dictionaries({
     'kind': st.sampled_from(KINDS), 'seed': SMALL, 'one': ONE,
-    'as_list': st.booleans()})
+    'as_list': st.booleans(), 'form': FORM})
 STD_SET = st.fixed_dictionaries({
     'kind': st.sampled_from(['none', 'full', 'full']), 'seed': SMALL})
 OBS_SET = st.fixed_dictionaries({
     'seed': SMALL, 'nan': st.sampled_from([0.0, 0.2, 0.5]),
-    'how': st.sampled_from(['inplace', 'replace'])})
+    'how': st.sampled_from(['inplace', 'replace']),
+    'zeros': st.sampled_from([False, False, False, True])})
 ADD_NOISE = st.fixed_dictionaries({
     'min_amp': st.one_of(
         st.just(['default']), st.just(['half_nf']), st.just(['none']),
@@ -931,7 +1233,8 @@ ADD_NOISE = st.fixed_dictionaries({
         st.tuples(st.sampled_from(['eq', 'mid']), st.integers(0, 11)
                   ).map(list)),
     'max_offset': st.one_of(
-        st.none(), st.none(), st.none(), st.integers(4, 24).map(lambda k: ['abs', k/2]),
+        st.none(), st.none(), st.none(), st.just(['inf']),
+        st.integers(4, 24).map(lambda k: ['abs', k/2]),
         st.tuples(st.sampled_from(['eq', 'mid']), st.integers(0, 11)
                   ).map(list)),
     'add_to': st.sampled_from([None, 'observed', 'extra', 'noise']),
@@ -939,7 +1242,9 @@ ADD_NOISE = st.fixed_dictionaries({
                               'gaussian_correlated',
                               'gaussian_uncorrelated']),
     'mean': st.sampled_from([None, None, 0.0, 0.5, -2.0]),
-    'seed': SMALL})
+    'seed': SMALL,
+    'num': st.sampled_from(['float', 'float', 'np64', 'int']),
+    'probe': st.booleans()})
 AXIS = st.one_of(st.none(), st.none(), st.tuples(
     st.sampled_from([7, 15, 3, 6, 5, 11, 13, 14, 1, 2, 4, 8, 0, 9, 10, 12]),
     st.sampled_from([0, 1, None, 2, 3]),
@@ -950,6 +1255,15 @@ SELECT = st.fixed_dictionaries({
 KEEP = st.sampled_from(['new', 'old'])
 SHAPE = st.one_of(
     st.just([1, 1, 1]),
+    # >= 10 items: automatic keys are zero-padded ('f-01')
+    st.sampled_from([[1, 1, 11], [1, 10, 2], [10, 1, 1], [2, 11, 1],
+                     [2, 2, 10]]),
+    st.tuples(st.sampled_from([2, 3, 1, 2, 3]),
+              st.sampled_from([2, 3, 4, 1, 2, 3]),
+              st.sampled_from([2, 3, 1, 2])).map(list),
+    st.tuples(st.sampled_from([2, 3, 1, 2, 3]),
+              st.sampled_from([2, 3, 4, 1, 2, 3]),
+              st.sampled_from([2, 3, 1, 2])).map(list),
     st.tuples(st.sampled_from([2, 3, 1, 2, 3]),
               st.sampled_from([2, 3, 4, 1, 2, 3]),
               st.sampled_from([2, 3, 1, 2])).map(list),
@@ -967,7 +1281,12 @@ CONFIG = st.fixed_dictionaries({
                               'dict', 'none', 'dict_noobs']),
     'nan': st.sampled_from([0.2, 0.0, 0.4]),
     'nf0': PARAM, 're0': PARAM,
-    'std0': st.sampled_from(['none', 'none', 'none', 'full'])})
+    'std0': st.sampled_from(['none', 'none', 'none', 'none', 'full', 'ctor']),
+    'geo': st.fixed_dictionaries({
+        'src': st.sampled_from(['classic', 'mixed', 'mixed']),
+        'shift': st.sampled_from([0, 0, 1, 2])}),
+    'names': st.sampled_from(['auto', 'auto', 'dict']),
+    'zeros': st.sampled_from([False, False, False, True])})
 
 
 class SurveyMachine(RuleBasedStateMachine):
@@ -1025,7 +1344,9 @@ class SurveyMachine(RuleBasedStateMachine):
     def select(self, a):
         self._do('select', a)
 
-    @rule(a=st.fixed_dictionaries({'keep': KEEP}))
+    @rule(a=st.fixed_dictionaries({
+        'keep': KEEP,
+        'how': st.sampled_from(['copy', 'copy', 'deepcopy', 'pickle'])}))
     def r_copy(self, a):
         self._do('copy', a)
 
@@ -1076,6 +1397,9 @@ MISFIT = st.fixed_dictionaries({
     'pseed': st.integers(0, 99),
     'via': st.sampled_from(['ctor', 'ctor', 'setter']),
     'solve': st.sampled_from([False]*19 + [True]),
+    'reuse': st.sampled_from(['none', 'none', 'none', 'clean', 'clean',
+                              'copy_computed', 'copy_results', 'copy_all',
+                              'copy_plain']),
 })
 
 
@@ -1101,7 +1425,7 @@ def case_misfit(spec, rec):
     import emg3d
     shape = tuple(spec['shape'])
     scale = spec['scale']
-    srcs, recs, freqs, _, _ = build_geometry(spec['seed'], shape)
+    srcs, recs, freqs, _, _, _ = build_geometry(spec['seed'], shape)
     nan = spec['nan']
     if nan >= 1.0:
         obs = np.full(shape, np.nan+1j*np.nan)
@@ -1185,6 +1509,15 @@ def case_misfit(spec, rec):
             raise Violation(f"param_changed:{pname}:{kind_of(val)}:current:"
                             f"after=misfit", f"{pname} changed by misfit")
 
+    check_weights(sim, syn_a, obs, std)
+    reuse = spec.get('reuse', 'none')
+    rec.cls(f"reuse={reuse}")
+    if reuse != 'none':
+        with warnings.catch_warnings():
+            warnings.simplefilter('ignore')
+            _misfit_reuse(reuse, sim, sv, shape, obs, syn, syn_a, nf, re, sd,
+                          got, solve, lab)
+
     # ---- permutation of sources / receivers / frequencies
     ps = _perm(shape[0], spec['pseed'], 31) if 'src' in spec['axes'] \
         else list(range(shape[0]))
@@ -1213,6 +1546,80 @@ def case_misfit(spec, rec):
         rec.nt(spec)
     rec.note({'shape': list(shape), 'finite': nfin, 'misfit': got,
               'moved': moved})
+
+
+def _misfit_reuse(reuse, sim, sv, shape, obs, syn, syn_a, nf, re, sd, got,
+                  solve, lab):
+    """The Simulation is used a second time.
+
+    'clean': clean('computed') ("removes all computed properties"), the noise
+    parameters of the survey are re-assigned (x3), synthetic data are
+    re-assigned (or re-computed): the misfit follows the *new* standard
+    deviation.  'copy_<what>': Simulation.copy(what): the copy's survey has
+    bit-identical noise parameters and the copy's misfit is the same."""
+    rtol = 1e-9 if solve else 1e-12
+    if reuse == 'clean':
+        sim.clean('computed')
+        if sd is not None:
+            sd2, nf2, re2 = 3.0*sd, nf, re
+            sim.survey.standard_deviation = sd2.copy()
+        elif nf is not None:
+            sd2, nf2, re2 = None, 3.0*nf, re
+            sim.survey.noise_floor = nf2.copy() if isinstance(
+                nf2, np.ndarray) else nf2
+        else:
+            sd2, nf2, re2 = None, nf, 3.0*re
+            sim.survey.relative_error = re2.copy() if isinstance(
+                re2, np.ndarray) else re2
+        syn2 = syn_a
+        if not solve:
+            syn2 = -1.5*syn
+            sim.data['synthetic'][...] = syn2.copy()
+            sim._computed = True
+        got2 = float(sim.misfit)
+        syn2 = np.array(sim.data.synthetic.data)
+        std2 = model_std(full_of(nf2, shape), full_of(re2, shape), sd2, obs)
+        ref2, nfin = ref_misfit(syn2, obs, std2)
+        if not abs(got2 - ref2) <= rtol*abs(ref2):
+            raise Violation(
+                "misfit:after_clean_and_reassignment",
+                f"misfit {got2!r} after clean('computed') and assignment of "
+                f"a new {'standard_deviation' if sd is not None else 'noise_floor' if nf is not None else 'relative_error'}"
+                f"; with the new standard deviation it is {ref2!r} "
+                f"(before: {got!r}; {lab}, solve={solve})")
+        check_weights(sim, syn2, obs, std2, tag=':after_clean')
+        return
+    what = reuse.split('_', 1)[1]
+    sim2 = sim.copy(what)
+    s2 = sim2.survey
+    for pname, val in (('noise_floor', nf), ('relative_error', re)):
+        g = getattr(s2, pname)
+        if (val is None) != (g is None) or (val is not None and not
+                                            np.array_equal(
+                np.broadcast_to(np.asarray(g, float), shape),
+                full_of(val, shape))):
+            raise Violation(f"param_changed:{pname}:{kind_of(val)}:result:"
+                            f"after=Simulation.copy({what})",
+                            f"{pname} of the copied simulation's survey "
+                            "differs")
+    has = 'standard_deviation' in s2.data
+    if has != (sd is not None) or (has and not np.array_equal(
+            s2.data['standard_deviation'].data, sd)):
+        raise Violation(f"param_changed:standard_deviation:result:"
+                        f"after=Simulation.copy({what})",
+                        "explicit standard deviation of the copied "
+                        "simulation's survey differs")
+    if not _same(s2.data.observed.data, obs):
+        raise Violation(f"content:data:observed:result:after=Simulation."
+                        f"copy({what})", "observed data differ in the copy")
+    if what == 'plain' and not solve:
+        sim2.data['synthetic'][...] = syn_a.copy()
+        sim2._computed = True
+    got2 = float(sim2.misfit)
+    if not abs(got2 - got) <= rtol*abs(got):
+        raise Violation(f"misfit:Simulation.copy({what})",
+                        f"misfit {got!r} is {got2!r} for the copy ({lab}, "
+                        f"solve={solve})")
 
 
 SUBS = {'history': case_history, 'misfit': case_misfit}
